@@ -1217,6 +1217,14 @@ static Janet os_execute_impl(int32_t argc, Janet *argv, JanetExecuteMode mode) {
         }
     }
 
+#ifndef JANET_WINDOWS
+    /* Convert the arguments before any pipe exists: a bad argument raises */
+    const char **child_argv = janet_smalloc(sizeof(char *) * ((size_t) exargs.len + 1));
+    for (int32_t i = 0; i < exargs.len; i++)
+        child_argv[i] = janet_getcstring(exargs.items, i);
+    child_argv[exargs.len] = NULL;
+#endif
+
     /* Create the requested pipes */
     if (pipe_owner_flags & JANET_PROC_OWNS_STDIN) new_in = make_pipes(&pipe_in, 1, &pipe_errflag);
     if (pipe_owner_flags & JANET_PROC_OWNS_STDOUT) new_out = make_pipes(&pipe_out, 0, &pipe_errflag);
@@ -1320,10 +1328,6 @@ static Janet os_execute_impl(int32_t argc, Janet *argv, JanetExecuteMode mode) {
     /* Result */
     int status = 0;
 
-    const char **child_argv = janet_smalloc(sizeof(char *) * ((size_t) exargs.len + 1));
-    for (int32_t i = 0; i < exargs.len; i++)
-        child_argv[i] = janet_getcstring(exargs.items, i);
-    child_argv[exargs.len] = NULL;
     /* Coerce to form that works for spawn. I'm fairly confident no implementation
      * of posix_spawn would modify the argv array passed in. */
     char *const *cargv = (char *const *)child_argv;
@@ -1783,6 +1787,7 @@ JANET_CORE_FN(os_cryptorand,
         offset = 0;
         buffer = janet_buffer(n);
     }
+    if (n > INT32_MAX - offset) janet_panic("buffer overflow");
     /* We could optimize here by adding setcount_uninit */
     janet_buffer_setcount(buffer, offset + n);
 
